@@ -366,7 +366,9 @@ func (g *gen) xrd(o xrdOpts) *genXRD {
 		x.Spec.Names.ShortNames = []string{"x" + strings.ToLower(base[:2])}
 	}
 	if g.p(0.2) {
-		x.Spec.Names.Categories = []string{"acme"}
+		// categories are free-form; an author may list Crossplane's own ("claim", "composite") so
+		// that `kubectl get claim` lists these too
+		x.Spec.Names.Categories = [][]string{{"acme"}, {"claim"}, {"acme", "claim", "composite"}}[g.n(3)]
 	}
 	switch g.n(6) { // optional names may be left to the API server's defaulting
 	case 0:
@@ -383,7 +385,7 @@ func (g *gen) xrd(o xrdOpts) *genXRD {
 			cn.ListKind = ""
 		}
 		if g.p(0.2) {
-			cn.Categories = []string{"acme"}
+			cn.Categories = [][]string{{"acme"}, {"composite"}, {"claim", "acme"}}[g.n(3)]
 		}
 		x.Spec.ClaimNames = &cn
 	}
